@@ -311,6 +311,14 @@ func decodeCut(sc *seqCase, stream []byte, bounds []int, c int, cf cfg, r *vlib.
 	where := func() string {
 		return fmt.Sprintf("%s; %s; stream cut at %d of %d (frame boundaries %v)\n stream[:cut] = %s", sc.desc, cf, c, len(stream), bounds, hx(stream[:c]))
 	}
+	// fail formats the (long) detail only while it is still kept by vlib
+	fail := func(key, format string, a ...interface{}) {
+		if r.ViolCount[key] >= 3 {
+			r.Fail(key, "")
+			return
+		}
+		r.Fail(key, fmt.Sprintf(format, a...)+"; "+where())
+	}
 	complete := 0
 	for complete+1 < len(bounds) && bounds[complete+1] <= c {
 		complete++
@@ -323,12 +331,12 @@ func decodeCut(sc *seqCase, stream []byte, bounds []int, c int, cf cfg, r *vlib.
 		if err != nil {
 			ferr = err
 			if m != nil {
-				r.Failf(name+"-message-with-error", "Decode returned both a message and error %v; %s", err, where())
+				fail(name+"-message-with-error", "Decode returned both a message and error %v", err)
 			}
 			break
 		}
 		if k >= len(sc.frames) {
-			r.Failf(name+"-extra-message", "Decode returned message #%d but only %d were written; %s", k, len(sc.frames), where())
+			fail(name+"-extra-message", "Decode returned message #%d but only %d were written", k, len(sc.frames))
 			return
 		}
 		if d := sameMsg(m, sc.frames[k]); d != "" {
@@ -336,11 +344,11 @@ func decodeCut(sc *seqCase, stream []byte, bounds []int, c int, cf cfg, r *vlib.
 			if k >= complete {
 				key = name + "-garbage-from-truncated-frame"
 			}
-			r.Failf(key, "message #%d differs from what was encoded: %s; %s", k, d, where())
+			fail(key, "message #%d differs from what was encoded: %s", k, d)
 			return
 		}
 		if len(sc.frames[k]) >= segLimitMust {
-			r.Failf(name+"-accepts-over-segment-limit", "Decode accepted a message of %d segments (limit constant 512); %s", len(sc.frames[k]), where())
+			fail(name+"-accepts-over-segment-limit", "Decode accepted a message of %d segments (limit constant 512)", len(sc.frames[k]))
 			return
 		}
 		if !cf.reuse {
@@ -351,7 +359,7 @@ func decodeCut(sc *seqCase, stream []byte, bounds []int, c int, cf cfg, r *vlib.
 	// without ReuseBuffer earlier messages stay valid
 	for i, m := range kept {
 		if d := sameMsg(m, sc.frames[i]); d != "" {
-			r.Failf(name+"-earlier-message-clobbered", "message #%d changed after later Decode calls: %s; %s", i, d, where())
+			fail(name+"-earlier-message-clobbered", "message #%d changed after later Decode calls: %s", i, d)
 			return
 		}
 	}
@@ -366,18 +374,18 @@ func decodeCut(sc *seqCase, stream []byte, bounds []int, c int, cf cfg, r *vlib.
 	}
 	switch {
 	case k < expect:
-		r.Failf(name+"-loses-message", "only %d of %d complete frames were delivered, then err=%v; %s", k, expect, ferr, where())
+		fail(name+"-loses-message", "only %d of %d complete frames were delivered, then err=%v", k, expect, ferr)
 	case k == expect:
 		limited := expect < complete || (k < len(sc.frames) && len(sc.frames[k]) >= segLimitMay && c > bounds[k]+8)
 		if c == bounds[k] {
 			if ferr != io.EOF {
-				r.Failf(name+"-no-eof-at-boundary", "stream ends exactly after %d frames but Decode returned %v, not io.EOF; %s", k, ferr, where())
+				fail(name+"-no-eof-at-boundary", "stream ends exactly after %d frames but Decode returned %v, not io.EOF", k, ferr)
 			} else {
 				r.Outcome("eof-at-boundary")
 			}
 		} else {
 			if ferr == io.EOF {
-				r.Failf(name+"-eof-midframe", "stream cut inside frame #%d but Decode returned bare io.EOF; %s", k, where())
+				fail(name+"-eof-midframe", "stream cut inside frame #%d but Decode returned bare io.EOF", k)
 			} else if limited {
 				r.Outcome("segment-limit-error")
 			} else {
@@ -392,9 +400,9 @@ func decodeCut(sc *seqCase, stream []byte, bounds []int, c int, cf cfg, r *vlib.
 		r.Outcome("packed-late-report")
 	default:
 		if cf.packed && k == expect+1 {
-			r.Failf(name+"-hides-truncation", "packed stream cut inside frame #%d: the frame was delivered and the next Decode returned io.EOF; %s", k-1, where())
+			fail(name+"-hides-truncation", "packed stream cut inside frame #%d: the frame was delivered and the next Decode returned io.EOF", k-1)
 		} else {
-			r.Failf(name+"-accepts-truncated-frame", "%d messages delivered but only %d complete frames precede the cut (err=%v); %s", k, expect, ferr, where())
+			fail(name+"-accepts-truncated-frame", "%d messages delivered but only %d complete frames precede the cut (err=%v)", k, expect, ferr)
 		}
 	}
 }
